@@ -26,8 +26,11 @@
 (*                                                                         *)
 (* Powers of two are exact in binary floating point, so the driver can      *)
 (* demand the scaled values to agree to rounding of the last operation.     *)
-(* Not covered (numerical analysis, see DESIGN.md): that the density IS the *)
-(* Fourier transform of the correlation, and that the pdf integrates to 1.  *)
+(* The Fourier-pair clause is decided pointwise in unit 1 (fields kernel,    *)
+(* twoPiPow, fourierAt of Expect) by adaptive quadrature of the             *)
+(* implementation's own correlation, only where the quadrature certifies    *)
+(* its error; not covered: that the pdf integrates to 1 for classes        *)
+(* without a cdf, and classes with an oscillating correlation (JBessel).    *)
 (***************************************************************************)
 EXTENDS Integers, FiniteSets, TLC
 
@@ -60,6 +63,12 @@ Expect(c) ==
     cdfSlope    |-> IF c.j = 0 THEN "not-compared" ELSE "rad-pdf",      \* the cdf is the integral of the pdf
     cdfAtInf    |-> "one",                                              \* ... and the pdf is normalised
     sameAs      |-> [c EXCEPT !.route = "direct"],        \* the route is not observable: values of the directly built model
+    \* the Fourier-pair clause itself: density(k) = (2 pi)^twoPiPow x int_0^inf cor(r) kernel_d(k, r) dr with the radial
+    \* kernel of dimension d (cos(kr); r J0(kr) x 2 pi / 2 ...; see drivers/spectral.py forward()); decided in unit 1 on
+    \* directly built models only - the unit and route relations above carry it to every other case
+    kernel      |-> CASE c.d = 1 -> "cos" [] c.d = 2 -> "bessel-j0" [] OTHER -> "sinc",
+    twoPiPow    |-> -c.d,
+    fourierAt   |-> c.e = 0 /\ c.route = "direct",
     tplParts    |-> c.cls \in TPLFamily,                 \* density of [low, up] = weighted difference of the densities of [0, up], [0, low]
     checkCdf    |-> c.d \in HasCdf[c.cls],
     checkPpf    |-> c.d \in HasPpf[c.cls] /\ c.d \in HasCdf[c.cls] ]
